@@ -6,8 +6,9 @@
     state space: every assembled certificate becomes a case, every collector state a vote-message history.
 (2) TLC simulates the same spec for validator sets up to 10 (Gen_QC); a seeded sampler adds volume there.
 (3) The Go harness (harness/cmd/c14) realises every case with real ECDSA keys and signatures and submits it
-    to the real DefaultSaftyRules.CheckProposal / CheckVote / CalVotesThreshold and to the real vote
-    collection (Smr.handleReceivedVoteMsg through the verif shim); it records the verdicts.
+    to the real DefaultSaftyRules.CheckProposal (directly, through the block's consensus-storage encoding, and
+    through the real xpoa CheckMinerMatch) / CheckVote / CalVotesThreshold and to the real vote collection
+    (Smr.handleReceivedVoteMsg through the verif shim); it records the verdicts.
 (4) TLC validates the recorded verdicts against the same operators (Trace_QC): first IDEAL, then - if
     rejected - ACTUAL with exactly the deviations listed as known.
 """
@@ -240,13 +241,18 @@ def check(run):
         "malformed / mismatching key are realised by several concrete variants each, chosen by the seed",
         "accepted is judged at the level of the property (a rejection is always explainable, DESIGN R2/R6); events that "
         "differ from the transcribed procedure but respect the property are counted as inexact_events, not reported",
-        "the collector's own address is member 1; the collected proposal is a child of the root (view 1)"]
+        "the collector's own address is member 1; the collected proposal is a child of the root (view 1)",
+        "a third of the standard-frame certificates reach CheckProposal through the real xpoa CheckMinerMatch (stub ledger of "
+        "kernel/consensus/mock, static validator set), a third through the block's consensus-storage encoding "
+        "(common.NewToOldQC / OldQCToNew), a third directly; tdpos CheckMinerMatch is not driven"]
     run.cov["real_code"] = dict(STATS)
     run.finish(require={
         "certificates_on_real_code": (len(certs) + len(samp), 1000),
         "certificates_accepted_by_real_code": (STATS.get("accept_proposal", 0), 100),
         "votes_accepted_by_real_code": (STATS.get("accept_vote", 0), 100),
         "collections_certified_by_real_code": (STATS.get("certified_events", 0), 20),
+        "certificates_through_xpoa_CheckMinerMatch": (STATS.get("xpoa_cases", 0), 300),
+        "certificates_accepted_by_xpoa_CheckMinerMatch": (STATS.get("accept_xpoa", 0), 20),
         "collections": (count_ops(behs, lambda o: o["op"] == "collect"), 100),
         "vote_messages": (count_ops(behs, lambda o: o["op"] == "votemsg"), 500),
         "threshold_points": (169, 169),
